@@ -243,6 +243,7 @@ class SLInit(Unit):
                 ex.oblige(s, 'exit: empty queue bounded by the argument; both conditions share the one mutex',
                           z3.And(self.me.get(s, 'maxsize') == self.maxsize, dq.get(s, 'q') == V.EMPTY,
                                  z3.BoolVal(isinstance(dq, Deque) and dq.maxlen is None and ne.lock is mx and nf.lock is mx and ne is not nf)))
+                ex.oblige(s, 'exit: the queue starts open (put / get read self._closed on every call)', box(ex, self.me.get(s, '_closed')) == V.boolv(z3.BoolVal(False)) if self.me.has(s, '_closed') else z3.BoolVal(False))
 
 
 class SLRelyGuarantee(LemmaUnit):
